@@ -148,6 +148,21 @@ pub fn generate_c15(thorough: bool, seed: u64, _part: (usize, usize), em: &mut E
 
 /// C07: hostile CHALLENGE messages and TSRequest structures
 pub fn generate_c07(thorough: bool, seed: u64, part: (usize, usize), em: &mut Emitter) {
+    // sealed pubKeyAuth tokens handed to gss_unwrapex: every length 0..=24 (the 16-byte signature
+    // boundary), random content and valid-looking headers, truncations of honest tokens
+    if part.0 == 0 {
+        let mut rr = Rng::new(seed ^ 0xC0716);
+        let keys: [Vec<u8>; 4] = [rr.bytes(16), rr.bytes(16), rr.bytes(16), rr.bytes(16)];
+        for n in 0..=24usize {
+            for variant in 0..3 {
+                let mut b = rr.bytes(n);
+                if variant > 0 && n >= 4 { b[0] = 1; b[1] = 0; b[2] = 0; b[3] = 0; }
+                if variant == 2 { for x in b.iter_mut().skip(4) { *x = 0; } }
+                crate::props::c16::emit(em, &keys, &[format!("U{}", hex(&b))]);
+            }
+            crate::props::c16::emit(em, &keys, &[format!("X{}:{}", n, hex(&rr.bytes(9)))]);
+        }
+    }
     let mut r = Rng::new(seed ^ 0xC07);
     let c = Creds { domain: "d".into(), user: "u".into(), password: "p".into(), from_hash: false };
     let sc = [1u8, 2, 3, 4, 5, 6, 7, 8];
